@@ -415,8 +415,11 @@ def add_growth(ns, prob=0.25):
 
 def arith_divisor(G, D, rng, graph=None):
     """the divisor D on G, obtained as the RESULT of divisor arithmetic (k*H + R, A - B, -(-D)) instead of a constructor call"""
-    how = rng.choice(["mul", "mul", "sub", "neg"])
-    if how == "mul":
+    how = rng.choice(["rmul", "rmul", "mul", "sub", "neg"])
+    if how == "rmul":        # a bare product k * H (no further operation on the result): k = -1 always divides, other factors when they do
+        ks = [k for k in (2, 3, -2, 5) if all(x % k == 0 for x in D)] + [-1, -1]; k = rng.choice(ks)
+        d = k * build_impl_divisor(G, [x // k for x in D], graph=graph, rng=rng)
+    elif how == "mul":
         k = rng.choice([2, 3, -1, -2]); H = [x // k for x in D]; R = [x - k * h for x, h in zip(D, H)]
         h = build_impl_divisor(G, H, graph=graph, rng=rng); r = build_impl_divisor(G, R, graph=h.graph, rng=rng); d = k * h + r
     elif how == "sub":
